@@ -690,3 +690,38 @@ func (c *Ctx) mayBeNilMap(v ssa.Value, depth int) (string, bool) {
 	}
 	return "", false
 }
+
+// ERRDROP: path-sensitive error discipline over all reachable module code. For
+// every call whose last result is an error, no path from the call may reach a
+// return of the enclosing function unless the error was tested against nil,
+// handed to another call, stored or returned on that path.
+func (c *Ctx) ERRDROP(rule string, entry ...string) []report.Obligation {
+	var out []report.Obligation
+	r, missing := c.Reach(entry...)
+	for _, m := range missing {
+		out = append(out, anchorViolation(rule, m))
+	}
+	n := 0
+	for _, f := range r.Sorted(c.P) {
+		for _, b := range f.Blocks {
+			for _, in := range b.Instrs {
+				call, ok := in.(*ssa.Call)
+				if !ok {
+					continue
+				}
+				sig := call.Call.Signature()
+				if sig.Results().Len() == 0 || !isErrorType(sig.Results().At(sig.Results().Len()-1).Type()) {
+					continue
+				}
+				n++
+				if at := c.errUntestedExit(call); at != "" {
+					out = append(out, bad(rule, c.P.FuncID(f)+" :: error of "+c.P.KeyTerm(call, 1), c.P.InstrPos(in),
+						"a path from this call reaches the return at "+at+" without the error having been tested, passed on, stored or returned: the failure is silently ignored"))
+				}
+			}
+		}
+	}
+	out = append(out, ok2(rule, "inventory", "", fmt.Sprintf("%d error-returning calls in %d reachable functions: every one not listed is consumed on every path", n, len(r.Set))))
+	c.Stats[rule+".calls"] = n
+	return out
+}
